@@ -56,7 +56,7 @@ class C18(Check):
                   'sequences); surrogates D800..DFFF are laid out as ordinary 3-byte sequences - the code excludes nothing '
                   '(utf8_surrogates_not_excluded); values >= 0x110000 append nothing (utf8_encoder_total); fromString returns the code '
                   'point of whatever well-formed first sequence the range starts with (utf8_decoder_reads_first_sequence). Bounds: '
-                  'fromString never fails a checked read for any list, isValid for any byte list and equals layout validity, a lead '
+                  'fromString and isValid never fail a checked read for any list, isValid equals layout validity, a lead '
                   'byte announcing more than the range holds gives 0 without a further read, length() is the lead-byte table '
                   '(utf8_readers_in_bounds, utf8_from_string_never_fails, utf8_is_valid_never_fails, utf8_from_string_truncated, '
                   'utf8_is_valid_accepts_text). Integers: print = the canonical decimal text of the cast argument, parse of the '
@@ -235,10 +235,14 @@ class C18(Check):
             for a in range(256):
                 for b in range(256):
                     ops.append('u8sw %s -' % h1(a, b))                      # every byte string of length 3
-            for a in range(0xf0, 0xf8):
+            for a in range(0xf0, 0xf8):                                      # length 4 behind a 4-byte lead:
+                for b in range(256):                                         # second and last byte over all values, third over the classes
+                    for c in U8_ALPHA:
+                        ops.append('u8sw %s -' % h1(a, b, c))
+            for a in range(0xe0, 0xf0):
                 for b in U8_ALPHA:
                     for c in U8_ALPHA:
-                        ops.append('u8sw %s -' % h1(a, b, c))               # length 4 behind a 4-byte lead
+                        ops.append('u8sw %s -' % h1(a, b, c))               # a 3-byte sequence and the byte after it
             for a in (0x41, 0xc2, 0xe0, 0xed, 0xef):
                 for b in U8_ALPHA:
                     for c in U8_ALPHA:
@@ -255,8 +259,8 @@ class C18(Check):
                     for c in (0x7f, 0x80, 0xbf, 0xc0):
                         ops.append('u8sw %s -' % h1(a, b, c))
                         ops.append('u8sw %s %s' % (h1(a, b), h1(c)))
-        out.append(Stream('readers_sweep', chunk(ops, 64), exhaustive=thorough,
-                          note=('every byte string of length 3 (65536 sweeps of the last byte); length 4 behind every 4-byte lead over the class alphabet'
+        out.append(Stream('readers_sweep', chunk(ops, 16), exhaustive=thorough,
+                          note=('every byte string of length 3 (65536 sweeps of the last byte); length 4 behind every 4-byte lead: second and last byte over all 256 values, third over the class alphabet; every 3-byte lead x class alphabet^2 x any following byte'
                                 if thorough else 'sweeps of one byte (256 values) behind/between class-alphabet bytes: lengths 2, 3 and 4')))
 
         # -- mostly valid text + one mutation; several code points ------------------------------
